@@ -42,3 +42,18 @@ Print Assumptions C02_frontier_generates_all.
 Theorem C02_frontier_no_duplicates : forall k n, NoDup (level k n).
 Proof. exact level_nodup. Qed.
 Print Assumptions C02_frontier_no_duplicates.
+
+(** The list handed to the checker by the glue is the model's enumeration of the
+    implementation's own rule table: it is duplicate-free and is exactly the set
+    of members (built without empty applications, within the fuel), hence the
+    verdict of a run is "the output is a permutation of that language". *)
+From PS Require Import Gram.Det.
+Theorem C02_language_list : forall tbl f x, table_ok tbl = true ->
+  NoDup (language f tbl x) /\ forall p, In p (language f tbl x) <-> member_of f tbl x p = true.
+Proof. exact language_list_ok. Qed.
+Print Assumptions C02_language_list.
+
+Theorem C02_enumeration_decided : forall tbl f x out, table_ok tbl = true ->
+  check_enum (member_of f tbl x) (length (language f tbl x)) out = true <-> Permutation out (language f tbl x).
+Proof. exact enumeration_decided. Qed.
+Print Assumptions C02_enumeration_decided.
